@@ -715,7 +715,7 @@ func grpcParseTimeout(timeout string) (time.Duration, error) {
 	if err != nil {
 		return 0, fmt.Errorf("gRPC protocol error: invalid timeout %q", timeout)
 	}
-	if num > 99999999 { // timeout must be ASCII string of at most 8 digits
+	if len(timeout) > grpcMaxTimeoutChars+1 || num > 99999999 { // timeout must be ASCII string of at most 8 digits
 		return 0, fmt.Errorf("gRPC protocol error: timeout %q is too long", timeout)
 	}
 	if unit == time.Hour && int64(num) > grpcTimeoutMaxHours {
